@@ -1,4 +1,4 @@
-import DFV.Lemmas.C08Set
+import DFV.Lemmas.C08Subst
 /-! Concrete instances used by the non-vacuity `example`s of `Props/C08.lean`. -/
 namespace DFV.C08
 open DFV
